@@ -209,13 +209,17 @@ theorem alert_history_isolated (thr : Nat → Option Int) (sco useFlap : Bool) (
   demux_noninterference_pure _ items g
 
 /-- the BATCH side of the alert node (threshold lambdas: state = current level; `count()` lambdas: state = the
-group's counter and level) is isolated on every stream of batches -/
-theorem alert_batch_side_isolated (items : List (Item Batch)) (g : GroupID) :
+group's counter and level) and of the eval node (`count() + "v"`: the group's counter runs on across batches) is
+isolated on every stream of batches -/
+theorem alert_eval_batch_side_isolated (items : List (Item Batch)) (g : GroupID) :
     (∀ thr, (runNode (alertThrNodeB thr) () items).filter (fun o => o.1 == g) =
       runNode (alertThrNodeB thr) () (items.filter (fun it => it.group == g))) ∧
     (∀ pr, (runNode (alertCountNodeB pr) () items).filter (fun o => o.1 == g) =
-      runNode (alertCountNodeB pr) () (items.filter (fun it => it.group == g))) :=
-  ⟨fun _ => demux_noninterference_pure _ items g, fun _ => demux_noninterference_pure _ items g⟩
+      runNode (alertCountNodeB pr) () (items.filter (fun it => it.group == g))) ∧
+    ((runNode evalCountAddNodeB () items).filter (fun o => o.1 == g) =
+      runNode evalCountAddNodeB () (items.filter (fun it => it.group == g))) :=
+  ⟨fun _ => demux_noninterference_pure _ items g, fun _ => demux_noninterference_pure _ items g,
+   demux_noninterference_pure _ items g⟩
 
 /-! ### Non-vacuity -/
 
@@ -254,6 +258,14 @@ example :
       .buffered g { key := g, bid := g, tmax := 9, pts := vs.map (fun v => { name := "m", key := g, v := .int v, time := v }) }
     (runNode (alertCountNodeB (.gt 4)) () [b "A" [1, 2, 3], b "B" [1, 2], b "A" [4, 5]]).map (fun o => (o.1, o.2.proj)) =
       [("A", "n:2/4=s:CRITICAL/5=s:CRITICAL")] := by
+  decide
+
+/-- batch side of eval: the group's count() runs on across its batches, whatever is interleaved -/
+example :
+    let b (g : String) (vs : List Int) : Item Batch :=
+      .buffered g { key := g, bid := g, tmax := 9, pts := vs.map (fun v => { name := "m", key := g, v := .int v, time := v }) }
+    ((runNode evalCountAddNodeB () [b "A" [10, 20], b "B" [10], b "A" [30]]).filter (fun o => o.1 == "A")).map (·.2.proj) =
+      ["n:2/10=i:11/20=i:22", "n:1/30=i:33"] := by
   decide
 
 /-- groupBy | stateCount: clean points of two hosts -/
